@@ -2284,3 +2284,4 @@ ASSUMPTIONS = [
     "_parse_files_info / _parse_header / _parse_main_header / _parse_streams_info are NOT under contract (native differential replay only)",
 ]
 BOUNDED = []
+QUICK_SKIP_BOUNDED = True   # the five BOUNDED header-parser enumerations (60-110 s each) run in the thorough tier only
